@@ -161,7 +161,7 @@ func (e *Exec) inline(st *State, f *ssa.Function, bindings, args []Value, pos to
 		cs.env[fv] = bindings[i]
 	}
 	e.depth++
-	rets := e.runBody(f, nil, cs, false)
+	rets := e.runBody(f, e.DB.Lookup(f), cs, false)
 	e.depth--
 	if len(rets) == 0 {
 		st.guard = e.C.False()
